@@ -30,6 +30,7 @@ UNCOPYABLE_OPS = [("store", U), ("fetch", U), ("has", U), ("store", G), ("fetch"
 ALIAS_OPS = [("store", M), ("fetch", M), ("mutate_fetched", M), ("fetch", P)]
 ARRAY_OPS = [("store", F), ("fetch", F), ("has", F), ("store", Z), ("fetch", Z), ("store", E), ("fetch", E), ("fetch", P)]
 # path operations that move one path between two keys and back (A, B, A ...)
+RECONF_OPS = [("store", L), ("fetch", L), ("has", L), ("reconfigure", None), ("fetch", P), ("sync_q_to", L), ("fetch_paths", None)]
 PATH_OPS = [("sync_q_to", P), ("sync_q_to", N), ("sync_r_to", P), ("sync", None), ("fetch_paths", None)]
 EXTRA_KEYS = ["x%d" % i for i in range(12)]  # to fill / overflow the cache
 CAPS = [1, 2, 3, 10, sys.maxsize // 2]
@@ -147,6 +148,23 @@ def run_sequence(under, cap, seq, root, rep, check_bound):
                 b = tuple(_answer(lambda q=q: dict(s2.fetch_paths([q]))) for q in ("/p/q", "/r"))
         elif op == "fetch_paths_absent":
             a, b = _answer(lambda: dict(w.fetch_paths(["/nope"]))), _answer(lambda: dict(s2.fetch_paths(["/nope"])))
+        elif op == "reconfigure":
+            # the process configures its store again on the same directories, emptied in between (a test suite, a notebook
+            # that starts over): a new store object, a new cache around it - nothing of the old one may show through
+            import shutil
+
+            w = s1 = s2 = None
+            for d in ("w", "b"):
+                shutil.rmtree(os.path.join(root, d), ignore_errors=True)
+            s1 = SM.make_store(kind, os.path.join(root, "w"))
+            s2 = SM.make_store(kind, os.path.join(root, "b"))
+            for st in (s1, s2):
+                st.store_blob(SM.key_for(P), value_of(P), None)
+                st.store_blob(SM.key_for(N), value_of(N), None)
+            w = LRUCacheStore(s1, cap)
+            stored_w, stored_b = {SM.key_for(P): None, SM.key_for(N): None}, {SM.key_for(P): None, SM.key_for(N): None}
+            rep.count("reconfigurations")
+            a = b = ("ok", None)
         elif op == "fill":
             # store + fetch many distinct objects through the wrapped store (and the twin)
             for x in EXTRA_KEYS[: k]:
@@ -289,6 +307,8 @@ def run(tier, seed):
                 allseq = allseq + pathseqs
             if under == "local" and (tier != "quick" or cap in (1, 3, CAPS[-1])):
                 allseq = allseq + liveseqs
+            # the store configured again on emptied directories in the middle of the sequence
+            allseq = allseq + [list(t) for n in (2, 3, 4) for t in itertools.product(RECONF_OPS, repeat=n) if ("reconfigure", None) in t[1:-1] or (n == 2 and t[0] != ("reconfigure", None) and ("reconfigure", None) in t)]
             if under == "memory":
                 # values that only the memory store can hold, and the identity of what it hands back
                 allseq = allseq + [list(t) for n in (2, 3) for t in itertools.product(UNCOPYABLE_OPS + [("store", M), ("fetch", M)], repeat=n)]
